@@ -115,12 +115,13 @@ RULE = ('Hypothesis draws (entry, parameters, space, rule chain, step, x, y, '
         'sha1 of the case descriptor')
 EXHAUSTIVE = {
     'quick': ['derandomised sweep: 2 cases for every cell (catalogue entry x '
-              'admissible space kind x leaf weighting in {rn, const, array, '
-              'discr}) and (catalogue entry x space kind x parameter class)'],
+              'admissible space kind x leaf kind in {rn, const, array, discr, '
+              'rn float32, discr float32}) and (catalogue entry x space kind '
+              'x parameter class)'],
     'thorough': ['derandomised sweep: 6 cases for every cell (catalogue '
-                 'entry x admissible space kind x leaf weighting in {rn, '
-                 'const, array, discr}) and (catalogue entry x space kind x '
-                 'parameter class)'],
+                 'entry x admissible space kind x leaf kind in {rn, const, '
+                 'array, discr, rn float32, discr float32}) and (catalogue '
+                 'entry x space kind x parameter class)'],
 }
 STRICT = os.environ.get('C07_STRICT') == '1'
 
@@ -138,7 +139,7 @@ ZERO_SCALE_OK = ('f_l1', 'f_l2', 'f_l2sq', 'f_l1l2', 'f_linf', 'f_huber',
                  'GroupL1Norm', 'LpNorm', 'ConstantFunctional')
 EXP_TYPE = ('f_cc_kl_ce', 'KullbackLeiblerCrossEntropy',
             'KullbackLeiblerCrossEntropyConvexConj')
-LEAF_WKINDS = ('rn', 'rn_const', 'rn_array', 'discr')
+LEAF_WKINDS = zoo.LEAF_KINDS
 
 
 def _entry_strategy():
@@ -258,29 +259,25 @@ def _sigma(draw, kinds, rsp, exp_type, nparts=None):
 
 
 @st.composite
-def _tree_on(draw, e, kind, sizes, wkinds=LEAF_WKINDS, max_depth=3,
-             force_depth=None, force=None):
-    """(space descriptor, tree, mode, admissible sigma kinds)."""
+def _tree_on(draw, e, kind, sizes, wkinds=None, max_depth=3,
+             force_depth=None, force=None, dtype=None):
+    """(space descriptor, tree, mode, admissible sigma kinds).  ``wkinds``
+    None = random leaf kind, else the forced kinds of the (first) leaf."""
+    lk = wkinds or zoo.LEAF_KINDS_RANDOM
     if kind == 'T':
-        sd = draw(zoo.leaf_spaces(sizes=sizes, kinds=wkinds))
+        sd = draw(zoo.leaf_spaces(sizes=sizes, kinds=lk, dtype=dtype))
     elif kind == 'P':
         base = draw(zoo.leaf_spaces(
             sizes=tuple(s for s in sizes if s != 'medium') or ('tiny',),
-            kinds=wkinds))
+            kinds=lk, dtype=dtype))
         bsz = int(np.prod(base['shape'], dtype=int))
         n = draw(st.sampled_from([1, 2, 2, 3] if bsz <= 12 else [1, 2]))
         sd = {'kind': 'pspace', 'base': base, 'power': n,
               'weighting': draw(zoo._pweight(n)), 'exponent': 2.0}
     elif kind == 'G':
-        sd = draw(zoo.general_spaces())
-        if wkinds != LEAF_WKINDS:
-            sd['parts'][0] = draw(zoo.leaf_spaces(sizes=('tiny', 'small'),
-                                                  kinds=wkinds))
+        sd = draw(zoo.general_spaces(dtype=dtype, first_kinds=wkinds))
     else:
-        sd = draw(zoo.matrix_spaces())
-        if wkinds != LEAF_WKINDS:
-            base = draw(zoo.leaf_spaces(sizes=('tiny',), kinds=wkinds))
-            sd['base'] = dict(sd['base'], base=base)
+        sd = draw(zoo.matrix_spaces(dtype=dtype, kinds=wkinds))
     rsp = R.RSpace(sd)
     fd = draw(_leaf_tree(e, rsp, force))
     mode = e.mode
@@ -312,14 +309,14 @@ def _case(draw, tier, cell=None):
     if cell is not None:
         e = zoo.BY_NAME[cell[0]]
         kind = cell[1]
-        wk = LEAF_WKINDS if cell[2] is None else (cell[2],)
+        wk = None if cell[2] is None else (cell[2],)
         force = None if cell[3] is None else e.classes[cell[3]]
         sizes = ('tiny', 'small')
         force_depth = 0 if draw(st.integers(0, 2)) else None
     else:
         e = zoo.BY_NAME[draw(_entry_strategy())]
         kind = draw(st.sampled_from(list(e.kinds)))
-        wk = LEAF_WKINDS
+        wk = None
         force_depth = None
     sep = (cell is None and kind in ('T', 'P') and not e.callable_only and
            draw(st.integers(0, 7)) == 0)
@@ -338,22 +335,23 @@ def _case(draw, tier, cell=None):
         nparts = draw(st.sampled_from([2, 2, 3]))
         power = draw(st.integers(0, 3)) == 0
         parts, sds, exp_type = [], [], False
+        dt = draw(st.sampled_from(['float64'] * 5 + ['float32']))
         for i in range(nparts):
             ei = e if i == 0 else draw(st.sampled_from(pool))
             ki = kind if i == 0 else draw(st.sampled_from(
                 [k for k in ei.kinds if k in ('T', 'P')]))
             sdi, fdi, _, _, ex = draw(_tree_on(ei, ki, ('tiny', 'small'),
-                                               max_depth=1))
+                                               max_depth=1, dtype=dt))
             if zoo.expected_rejection(fdi):
                 sdi, fdi, _, _, ex = draw(_tree_on(
                     zoo.BY_NAME['f_l2' if mode == 'factory' else 'L2Norm'],
-                    'T', ('tiny',), max_depth=0))
+                    'T', ('tiny',), max_depth=0, dtype=dt))
             if zoo.known_region(zoo.site_of(fdi), R.RSpace(sdi)):
                 sdi = dict(sdi)
                 # move the summand out of the known-finding region
                 sdi, fdi, _, _, ex = draw(_tree_on(
                     zoo.BY_NAME['f_l1' if mode == 'factory' else 'L1Norm'],
-                    'T', ('tiny',), max_depth=0))
+                    'T', ('tiny',), max_depth=0, dtype=dt))
             parts.append(fdi)
             sds.append(sdi)
             exp_type = exp_type or ex
@@ -474,7 +472,7 @@ class Problem(object):
         terms = self.M.astype(R.LD) * d * self.g
         lin = float(np.sum(terms))
         gap = (fz - self.fp) + lin
-        tol = K_TOL * EPS * (1.0 + magz + self.magp +
+        tol = K_TOL * R.eps() * (1.0 + magz + self.magp +
                              float(np.sum(np.abs(terms))) +
                              (_mnorm(self.M, d) + self.gn) * self.pn)
         return gap, tol, True
@@ -575,6 +573,7 @@ def _sig(clause, site, region, sk):
 def _odl_call(fn, sig_ctx, *args, **kwargs):
     """Call into ODL; an exception whose innermost frame is in odl/ becomes
     a violation that carries the functional site and the region."""
+    prefix = kwargs.pop('_prefix', '')
     try:
         return fn(*args, **kwargs)
     except (Violation, HarnessError):
@@ -584,7 +583,8 @@ def _odl_call(fn, sig_ctx, *args, **kwargs):
         if where != 'odl':
             raise
         loc = sig.split('|')[-1]
-        raise Violation(_sig('crash:' + type(exc).__name__, *sig_ctx),
+        raise Violation(_sig(prefix + 'crash:' + type(exc).__name__,
+                             *sig_ctx),
                         '{}: {} at {}'.format(type(exc).__name__,
                                               str(exc)[:300], loc))
 
@@ -641,13 +641,19 @@ def _norm_agrees(space, rsp, x):
     v = flat.flat(x, space)
     a = float(np.sqrt(rsp.norm2(v)))
     b = float(space.norm(x))
-    return abs(a - b) <= 64 * EPS * max(rsp.size, 1) * max(a, b, 1e-300)
+    return abs(a - b) <= 64 * R.eps() * max(rsp.size, 1) * \
+        max(a, b, 1e-300)
 
 
 def run_case(desc):
     """Run the case; when a derived functional fails, find the smallest
     failing sub-tree so that the signature names the root cause (a leaf
     class, or the calculus rule whose operand passes on its own)."""
+    with R.precision(zoo.dtype_of(desc['space'])):
+        return _run_case(desc)
+
+
+def _run_case(desc):
     try:
         return _run_tree(desc)
     except Violation as v:
@@ -663,7 +669,7 @@ def run_case(desc):
                                                         inner.detail))
         parts = v.signature.split('|')
         parts[2] = 'rule:{}@{}'.format(zoo.rule_name(fd), desc['mode'])
-        if _negative_scaling_of_linear(desc):
+        if _negative_scaling_of_linear(desc, v):
             # same root cause as the catalogue entry 'ZeroFunctional*neg'
             parts[2] = 'ZeroFunctional*neg'
         raise Violation('|'.join(parts),
@@ -671,19 +677,15 @@ def run_case(desc):
                             zoo.site_of(fd), v.detail))
 
 
-def _negative_scaling_of_linear(desc):
-    """f * s with s < 0 for an operand the library flags as linear."""
-    fd = desc['func']
-    if not (desc['mode'] == 'functional' and fd['t'] == 'argscale' and
-            not isinstance(fd['s'], dict) and float(fd['s']) < 0):
-        return False
-    try:
-        rsp = R.RSpace(desc['space'])
-        space = build.build_space(desc['space'])
-        _, h = zoo.build_odl(fd['f'], space, 'functional', rsp)
-        return bool(h.is_linear)
-    except Exception:  # noqa
-        return False
+def _negative_scaling_of_linear(desc, v):
+    """The library itself produced ``s * f`` with s < 0 for a functional it
+    flags as linear (f * s, or the conjugate rule (f * s)* = f* * (1/s)) and
+    then refused its proximal, although the descriptor contains no negative
+    left multiplication."""
+    return ('|crash:ValueError|' in v.signature and
+            'scaled with a negative value' in v.detail and
+            desc['mode'] == 'functional' and
+            zoo.expected_rejection(desc['func']) is None)
 
 
 def _sub_cases(desc):
@@ -709,6 +711,70 @@ def _sub_cases(desc):
     return out
 
 
+def _call_out(op, arg, out, callable_only):
+    if callable_only:
+        return op.call_out(arg, out)
+    return op(arg, out=out)
+
+
+def _certify(ref, pv, xv, sigma_flat, rng, ctx, notes):
+    """Feasibility of p and the optimality certificate on all probes;
+    raises Violation (clauses 'infeasible' / 'certificate')."""
+    amb, sig_eff = R.ambient(ref, pv, xv, sigma_flat)
+    problems = [Problem(*t, amb=amb) for t in R.reduce_problem(
+        ref, pv, xv, sigma_flat)]
+    nprobe = 0
+    nfinite = 0
+    used_scipy = False
+    for pb in problems:
+        node = pb.node
+        fp, magp = node.ev(pb.p, pb.amb)
+        if not np.isfinite(fp):
+            ok_doc = False
+            if isinstance(node, (R.RIndSimplex, R.RIndSum)) and \
+                    node.doc_excess(pb.p):
+                ok_doc = True       # inside the documented sum_rtol
+                fp, magp = 0.0, 0.0
+                notes['doc_rtol_used'] = notes.get('doc_rtol_used', 0) + 1
+            if not ok_doc:
+                ex = node.excess(pb.p, pb.amb)
+                raise Violation(
+                    _sig('infeasible', *ctx),
+                    'f(p) is not finite by the reference: constraint excess '
+                    '{} (tol {}), p={}, x={}'.format(
+                        None if ex is None else '{:.3g}'.format(ex[0]),
+                        None if ex is None else '{:.3g}'.format(ex[1]),
+                        _short(pb.p), _short(pb.x)))
+        pb.fp, pb.magp = fp, magp
+        zs = probes(pb, rng)
+        if node.sp.size <= 4:
+            zs += scipy_probes(pb, rng)
+            used_scipy = True
+        worst = None
+        for z in zs:
+            nprobe += 1
+            gap, tol, fin = pb.gap(z)
+            if not fin:
+                continue
+            nfinite += 1
+            if gap < -tol and (worst is None or gap / tol < worst[0]):
+                worst = (gap / tol, gap, tol, z)
+        if worst is not None:
+            _, gap, tol, z = worst
+            raise Violation(
+                _sig('certificate', *ctx),
+                'F(z)-F(p)-|z-p|^2/(2 sigma) = {:.6g} < -{:.3g} at a probe '
+                'with |z-p|_M = {:.3g}; f(p)={:.6g} f(z)={:.6g}; p={} z={} '
+                'x={} sigma={}{}'.format(
+                    gap, tol, _mnorm(pb.M, z - pb.p), pb.fp,
+                    node.value(z, 0.0), _short(pb.p), _short(z),
+                    _short(pb.x), _short(np.atleast_1d(sigma_flat)),
+                    ' (after Moreau/rule reduction)'
+                    if len(problems) > 1 or pb.node is not ref else ''))
+    return {'amb': amb, 'sig_eff': sig_eff, 'problems': problems,
+            'nprobe': nprobe, 'nfinite': nfinite, 'scipy': used_scipy}
+
+
 def _run_tree(desc):
     sd, fd, mode = desc['space'], desc['func'], desc['mode']
     rsp = R.RSpace(sd)
@@ -724,6 +790,7 @@ def _run_tree(desc):
     strata = ['entry:' + entry_names[0], 'mode:' + mode,
               'leafw:' + rsp.leaf_kind(), 'prodw:' + rsp.prod_kind(),
               'sigma:' + sk, 'spacekind:' + zoo.space_label(rsp),
+              'dtype:' + rsp.dtype,
               'dim:' + ('tiny' if n <= 4 else 'small' if n <= 24
                         else 'medium'),
               'depth:{}'.format(_depth(fd)), 'xmode:' + desc['xmode'],
@@ -812,61 +879,72 @@ def _run_tree(desc):
     notes = {}
     # ---- (1)+(2) feasibility and optimality certificate ------------------
     rng = np.random.RandomState(int(desc['seed']) % (2 ** 32))
-    amb, sig_eff = R.ambient(ref, pv, xv, sigma_flat)
-    problems = [Problem(*t, amb=amb) for t in R.reduce_problem(
-        ref, pv, xv, sigma_flat)]
-    nprobe = 0
-    nfinite = 0
-    used_scipy = False
-    for pb in problems:
-        node = pb.node
-        fp, magp = node.ev(pb.p, pb.amb)
-        if not np.isfinite(fp):
-            ok_doc = False
-            if isinstance(node, (R.RIndSimplex, R.RIndSum)) and \
-                    node.doc_excess(pb.p):
-                ok_doc = True       # inside the documented sum_rtol
-                fp, magp = 0.0, 0.0
-                notes['doc_rtol_used'] = notes.get('doc_rtol_used', 0) + 1
-            if not ok_doc:
-                ex = node.excess(pb.p, pb.amb)
-                raise Violation(
-                    _sig('infeasible', *ctx),
-                    'f(p) is not finite by the reference: constraint excess '
-                    '{} (tol {}), p={}, x={}'.format(
-                        None if ex is None else '{:.3g}'.format(ex[0]),
-                        None if ex is None else '{:.3g}'.format(ex[1]),
-                        _short(pb.p), _short(pb.x)))
-        pb.fp, pb.magp = fp, magp
-        zs = probes(pb, rng)
-        if node.sp.size <= 4:
-            zs += scipy_probes(pb, rng)
-            used_scipy = True
-        worst = None
-        for z in zs:
-            nprobe += 1
-            gap, tol, fin = pb.gap(z)
-            if not fin:
-                continue
-            nfinite += 1
-            if gap < -tol and (worst is None or gap / tol < worst[0]):
-                worst = (gap / tol, gap, tol, z)
-        if worst is not None:
-            _, gap, tol, z = worst
+    cert = _certify(ref, pv, xv, sigma_flat, rng, ctx, notes)
+    amb, sig_eff = cert['amb'], cert['sig_eff']
+    problems = cert['problems']
+    nprobe, nfinite, used_scipy = (cert['nprobe'], cert['nfinite'],
+                                   cert['scipy'])
+
+    # ---- (1b) other call styles: out=fresh element, out aliased with x ----
+    scale0 = max(float(np.abs(xv).max(initial=0)),
+                 float(np.abs(pv).max(initial=0)), ref.typ(), amb)
+    ctol = K_TOL * R.eps() * max(1.0, sig_eff) * (scale0 + np.abs(pv))
+    strata.append('call:plain')
+    for style in ('inplace', 'alias'):
+        if style == 'inplace':
+            arg = x
+            out = space.element()
+            for arr in build.leaf_arrays_of(out):
+                arr[...] = np.nan
+        else:
+            arg = x.copy()
+            out = arg
+        res = _odl_call(_call_out, ctx, op, arg, out, callable_only,
+                        _prefix=style + '-')
+        rv = _as_flat(res, space, ctx,
+                      'prox(x, out={})'.format('x' if style == 'alias'
+                                               else 'fresh'),
+                      prefix=style + '-')
+        strata.append('call:' + style)
+        if style == 'inplace' and not np.array_equal(flat.flat(x, space),
+                                                     x_before):
+            raise Violation(_sig('input-modified', *ctx),
+                            'prox(x, out=y) changed its argument')
+        if np.all(np.abs(rv - pv) <= ctol):
+            continue
+        # deviates from the out-of-place result: it has to be a minimiser
+        # in its own right
+        dev = float(np.abs(rv - pv).max())
+        try:
+            _certify(ref, rv, xv, sigma_flat,
+                     np.random.RandomState(int(desc['seed']) % (2 ** 32)),
+                     ctx, {})
+        except Violation as v:
             raise Violation(
-                _sig('certificate', *ctx),
-                'F(z)-F(p)-|z-p|^2/(2 sigma) = {:.6g} < -{:.3g} at a probe '
-                'with |z-p|_M = {:.3g}; f(p)={:.6g} f(z)={:.6g}; p={} z={} '
-                'x={} sigma={}{}'.format(
-                    gap, tol, _mnorm(pb.M, z - pb.p), pb.fp,
-                    node.value(z, 0.0), _short(pb.p), _short(z),
-                    _short(pb.x), _short(np.atleast_1d(sigma_flat)),
-                    ' (after Moreau/rule reduction)'
-                    if len(problems) > 1 or pb.node is not ref else ''))
+                _sig(style, *ctx),
+                'prox(x, out={}) = {} differs from prox(x) = {} (max diff '
+                '{:.3g}, tol {:.3g}) and is not the minimiser: {}'.format(
+                    'x' if style == 'alias' else 'fresh element', _short(rv),
+                    _short(pv), dev, float(ctol.max()), v.detail[:400]))
+        notes['callstyle_deviation_certified'] = \
+            notes.get('callstyle_deviation_certified', 0) + 1
 
     # ---- by-products: library value at p ----------------------------------
     if func is not None and ref.has_value:
         _value_byproduct(func, ref, p_el, pv, x, xv, notes, ctx)
+    if func is not None and isinstance(ref, (R.RIndSimplex, R.RIndSum)) \
+            and ref.doc_excess(pv, margin=0.5):
+        # p satisfies the *documented* membership test of the class
+        # (sum_rtol default: 1e-10*size on float64 spaces, 1e-6*size
+        # otherwise) with a factor two to spare: the library has to agree
+        strata.append('lib-value-clause')
+        lib = float(_odl_call(func, ctx, p_el))
+        if not np.isfinite(lib):
+            raise Violation(
+                _sig('lib-value-infinite', *ctx),
+                'f(prox(x)) = {} as evaluated by the library although p is '
+                'inside the documented tolerance: |sum(p)/c - 1| <= 0.5 * '
+                '{:.3g}; p={}'.format(lib, ref.doc_rtol, _short(pv)))
 
     # ---- (3) firm non-expansiveness ---------------------------------------
     y = flat.unflat(yv, space)
@@ -877,7 +955,7 @@ def _run_tree(desc):
     dp, dx = pv - qv, xv - yv
     lhs = float(np.sum(M.astype(R.LD) * dp * dx))
     rhs = float(np.sum(M.astype(R.LD) * dp * dp))
-    ftol = K_TOL * EPS * (1.0 + (_mnorm(M, xv) + _mnorm(M, yv) +
+    ftol = K_TOL * R.eps() * (1.0 + (_mnorm(M, xv) + _mnorm(M, yv) +
                                  _mnorm(M, pv) + _mnorm(M, qv)) ** 2)
     if lhs - rhs < -ftol:
         raise Violation(_sig('firm-nonexpansive', *ctx),
@@ -895,7 +973,7 @@ def _run_tree(desc):
         # projections computed through the Moreau identity inherit the
         # library's absolute threshold shrink multiplied by the step
         smax = max(1.0, sig_eff * 3.7 + 0.01)
-        itol = K_TOL * EPS * smax * (max(scale, amb) + np.abs(pv))
+        itol = K_TOL * R.eps() * smax * (max(scale, amb) + np.abs(pv))
         if np.any(np.abs(again - pv) > itol):
             raise Violation(_sig('idempotence', *ctx),
                             'prox(prox(x)) != prox(x): max diff {:.3g}; '
@@ -943,7 +1021,7 @@ def _value_byproduct(func, ref, p_el, pv, x, xv, notes, ctx):
                   float(np.abs(xv).max(initial=0)))
         rv, mag = ref.ev(v, amb)
         if np.isfinite(lib) and np.isfinite(rv):
-            if abs(lib - rv) > K_TOL * EPS * (1 + mag + abs(rv)):
+            if abs(lib - rv) > K_TOL * R.eps() * (1 + mag + abs(rv)):
                 notes['value_mismatch'] = notes.get('value_mismatch', 0) + 1
                 if STRICT:
                     raise HarnessError('value mismatch {} lib {!r} ref {!r}'
@@ -964,18 +1042,18 @@ def _value_byproduct(func, ref, p_el, pv, x, xv, notes, ctx):
                                        ''.format(ctx, lib, rv))
 
 
-def _as_flat(el, space, ctx, what):
+def _as_flat(el, space, ctx, what, prefix=''):
     try:
         ok = el in space
     except Exception:  # noqa
         ok = False
     if not ok:
-        raise Violation(_sig('result-space', *ctx),
+        raise Violation(_sig(prefix + 'result-space', *ctx),
                         '{} is not an element of the space: {!r}'.format(
                             what, type(el)))
     v = flat.flat(el, space)
     if not np.all(np.isfinite(v)):
-        raise Violation(_sig('non-finite', *ctx),
+        raise Violation(_sig(prefix + 'non-finite', *ctx),
                         '{} has non-finite entries: {}'.format(what,
                                                                _short(v)))
     return v
@@ -1043,4 +1121,5 @@ REQUIRED_STRATA = (
      'spacekind:matrix-wide',
      'discr:bdry', 'discr:nobdry', 'dim:tiny', 'dim:small', 'dim:medium',
      'scipy', 'reduced', 'indicator-clauses', 'rejected:nie',
-     'rejected:value'])
+     'rejected:value', 'call:plain', 'call:inplace', 'call:alias',
+     'dtype:float32', 'dtype:float64', 'lib-value-clause'])
